@@ -132,6 +132,9 @@ array_t* get_dir (char *path, int flags) {
   if (path == 0)
     return 0;
 
+  if (strlen (path) > MAX_FNAME_SIZE + MAX_PATH_LEN + 1)
+    return 0; /* does not fit temppath: a truncated name is not the path the master approved */
+
   if (strlen (path) < 2)
     {
       temppath[0] = path[0] ? path[0] : '.';
